@@ -9,6 +9,8 @@ from __future__ import annotations
 
 import copy
 import hashlib
+import re
+import zlib
 import json
 import math
 from collections import Counter
@@ -81,6 +83,29 @@ class Renderer(object):
     def _nd(self):
         return 6 if self.U.unit != 1.0 else 4
 
+    def _spell(self, num):
+        """Spelling style of numbers (all legal RS274 / Marlin spellings of the same value)."""
+        style = self.cfg.get("numstyle")
+        if not style:
+            return num
+        if style == "mixed":
+            style = ("noleadzero", "plus", "traildot", None)[zlib.crc32(num.encode()) % 4]
+        if style == "noleadzero":
+            if num.startswith("0.") and len(num) > 2:
+                return num[1:]
+            if num.startswith("-0.") and len(num) > 3:
+                return "-" + num[2:]
+        elif style == "plus":
+            if not num.startswith("-"):
+                return "+" + num
+        elif style == "traildot":
+            if "." not in num:
+                return num + "."
+        return num
+
+    def _join(self, parts):
+        return ("" if self.cfg.get("compact") else " ").join(parts)
+
     def _axis_word(self, i, letter, target):
         U = self.U
         kz = self.cfg.get("keep_zeros", False)
@@ -88,7 +113,7 @@ class Renderer(object):
             v = (target + U.shift[i] + U.home_off[i]) / U.unit
         else:
             v = (target - (U.pos[i] if U.pos[i] is not None else 0.0)) / U.unit
-        return letter + fmt(v, self._nd(), kz)
+        return letter + self._spell(fmt(v, self._nd(), kz))
 
     def _e_word(self, de):
         U = self.U
@@ -96,7 +121,7 @@ class Renderer(object):
             v = (U.E + de) / U.unit
         else:
             v = de / U.unit
-        return "E" + fmt(v, self._nd() + 1, self.cfg.get("keep_zeros", False))
+        return "E" + self._spell(fmt(v, self._nd() + 1, self.cfg.get("keep_zeros", False)))
 
     def render(self, op):
         """-> list of file lines for a motion-level op (may be empty if the op is not legal right now)."""
@@ -121,7 +146,7 @@ class Renderer(object):
                     self.file_retract_len = -op["de"]
             if op.get("f") is not None:
                 parts.append("F" + fmt(op["f"] / U.unit, 3))
-            return [" ".join(parts)]
+            return [self._join(parts)]
         if k == "arc":
             if not U.homed():
                 return []
@@ -155,7 +180,7 @@ class Renderer(object):
             self.file_retracted = True
             if op.get("fw"):
                 self.file_retract_len = None
-                return ["G10" + (" " + op["params"] if op.get("params") else "")]
+                return [self._join(["G10"] + ([op["params"]] if op.get("params") else []))]
             self.file_retract_len = op["len"]
             line = "G1 " + self._e_word(-op["len"])
             if op.get("f") is not None:
@@ -166,7 +191,7 @@ class Renderer(object):
                 return []
             self.file_retracted = False
             if self.file_retract_len is None:
-                return ["G11" + (" " + op["params"] if op.get("params") else "")]
+                return [self._join(["G11"] + ([op["params"]] if op.get("params") else []))]
             line = "G1 " + self._e_word(self.file_retract_len)
             if op.get("f") is not None:
                 line += " F" + fmt(op["f"] / U.unit, 3)
@@ -476,8 +501,8 @@ class PrintWorld(Renderer):
                         self.fail("C05", "parity", "printing move %r with firmware-retract state %s, file "
                                   "assumes %s" % (wc, fb[7], U_before[7]))
                 if synthesized and fcode in ("G10", "G11") and code in ("G10", "G11"):
-                    if wc.split(None, 1)[1:] != cmd.split(None, 1)[1:]:
-                        self.fail("C05", "params", "synthesised %r lost the parameters of %r" % (wc, cmd))
+                    if marlin_words(wc)[2] != w:
+                        self.fail("C05", "params", "synthesised %r does not carry the parameters of %r" % (wc, cmd))
         # ---- probes on the retraction state machine (reach measurement only, never a verdict)
         if self._pre is not None:
             lr = self.plugin.state.lastRetraction
@@ -524,6 +549,11 @@ class PrintWorld(Renderer):
                 if call.wire[:len(enter_here)] != enter_here:
                     self.fail("C06", "enter", "episode opened by %r: wire %r does not start with the enter "
                               "script %r" % (cmd, call.wire, enter_here))
+                extra = call.wire[len(enter_here):]
+                retracts = U_before is not None and (U.p - U_before[5]) < -1e-9
+                if extra and not retracts:
+                    self.fail("C06", "enter_extra", "episode opened by %r (which does not retract): besides the "
+                              "enter script %r the printer received %r" % (cmd, enter_here, extra))
             elif self.enter_lines and any(x in self.enter_lines for x in call.wire if x != cmd):
                 self.fail("C06", "enter_again", "enter script line emitted outside an episode start: %r"
                           % (call.wire,))
@@ -673,13 +703,24 @@ class PrintWorld(Renderer):
             self.fail(prop, clause + "_exit", "episode closed by %r: exit script %r expected at position %d of %r"
                       % (cmd, ex, k, seq))
         k += len(ex)
+        # the re-positioning tail: G92 E once, then [G90] [G0 Z] G0 X Y [G0 Z] [G91] -- one of each at most
+        shape = []
         for got in seq[k:]:
-            gc, _s, _w = marlin_words(got)
+            gc, _s, w_ = marlin_words(got)
             if gc not in REPOSITION_CODES:
                 self.fail(prop, clause + "_tail", "episode closed by %r: unexpected %r after the exit script in %r"
                           % (cmd, got, seq))
             if got in ex and ex.count(got) < seq.count(got):
                 self.fail(prop, clause + "_exit", "exit script line repeated: %r" % (seq,))
+            if gc == "G0":
+                shape.append("xy" if ("X" in w_ or "Y" in w_) else "z")
+            else:
+                shape.append(gc or "?")
+        allowed = re.compile(r"^G92 (G90 )?(z )?xy (z )?(G91 )?$")
+        if not allowed.match(" ".join(shape) + " "):
+            self.fail(prop, clause + "_tail", "episode closed by %r: re-positioning part of %r has the shape %r, "
+                      "expected G92 E, then one X/Y travel with at most one Z move before or after it"
+                      % (cmd, seq, shape))
 
     def _abstract_state(self, code, src):
         st = self.plugin.state
@@ -941,6 +982,8 @@ class PrintWorld(Renderer):
         elif kind == "error":
             self.bus.fire(Events.ERROR)
             self.bus.fire(Events.PRINT_FAILED)
+        elif kind == "error_only":
+            self.bus.fire(Events.ERROR)
         else:
             self.bus.fire(Events.PRINT_FAILED)
         if op.get("deliver", True):
